@@ -19,7 +19,8 @@
  *              f      p = r_fetch(&n); if p: check payload; r_move
  *        kill <tid> <k>                      thread <tid> dies (is never scheduled again) after k steps
  *        maxsteps <n>
- *        sched random <seed> | pct <seed> <depth> | replay <tokens...>
+ *        sched random <seed> | pct <seed> <depth> | replay <tokens...> | prefix <tokens...>
+ *             (prefix: replay, then continue non-preemptively, print "#enabled <masks>": systematic explorer)
  *        run                                 -> schedule, events, end, outcome lines
  *
  * notes in the trace (no scheduling point; T<tid> note ...):
@@ -123,16 +124,19 @@ static int tag_of(int tid, int k) { return 1 + (tid * 29 + k * 7) % 120; }
 static void do_alloc(int tid, int k, uint32_t n, int commit)
 {
 	vs_note("alloc-begin n=%u", n);
-	int was_drained = -1;
-	if (g_lock) muggle_spinlock_lock(muggle_shm_ringbuf_get_wlock(g_rb));
-	/* drained is sampled by the judge / model at the first step of w_alloc; here at the
-	 * same place: the lock (if any) is held, nothing can be committed meanwhile */
-	(void)was_drained;
+	/* ghost: is the ring drained when this allocation starts?  Sampled where no other
+	 * writer can commit any more: after the lock was taken, or (no lock: single writer)
+	 * right here. The reader can only drain further in between. */
+	int was_drained = drained();
+	if (g_lock) { muggle_spinlock_lock(muggle_shm_ringbuf_get_wlock(g_rb)); was_drained = drained(); }
 	char *p = (char *)muggle_shm_ringbuf_w_alloc_bytes(g_rb, n);
 	uint32_t want = MUGGLE_SHM_RINGBUF_CAL_BYTES_CACHELINE(n);
 	if (p == NULL) {
+		/* no-wedge clause: a drained ring must accept any request of at most N/2 - 1 cache lines */
+		int wd = was_drained && want + 1 <= g_ncl / 2;
 		g_fails++;
-		vs_note("alloc-fail n=%u ncl=%u", n, want);
+		if (wd) g_wedge++;
+		vs_note("alloc-fail n=%u ncl=%u%s", n, want, wd ? " WEDGE" : "");
 	} else {
 		int cell = cell_of(p);
 		uint32_t ncl = hdr_ncl(p);
@@ -209,15 +213,19 @@ static int g_pol; static uint64_t g_seed; static int g_depth; static char g_repl
 static void vh_op(int argc, char **argv)
 {
 	if (!strcmp(argv[0], "conf") && argc == 3) {
-		g_nbytes = (uint32_t)vh_ull(argv[1]); g_lock = atoi(argv[2]) != 0;
+		unsigned long long nb = vh_ull(argv[1]);
+		if (nb == 0 || nb > 16777216ULL) { printf("bad-op\n"); return; }
+		g_nbytes = (uint32_t)nb; g_lock = atoi(argv[2]) != 0;
 		g_conf = 1; g_nthr = 0; g_pol = 0; g_seed = 1; g_kill_tid = -1; g_maxsteps = 4000;
 		printf("ok\n");
 		return;
 	}
 	if (!strcmp(argv[0], "thr") && g_conf && g_nthr < MAXTHR) {
-		int t = g_nthr, k = 0, bad = 0;
-		for (int i = 1; i < argc && k < MAXOPS; i++) {
+		int t = g_nthr, k = 0, bad = argc - 1 > MAXOPS;
+		for (int i = 1; i < argc && !bad; i++) {
 			char c = argv[i][0];
+			if (c != 'f' && strspn(argv[i] + 1, "0123456789") != strlen(argv[i] + 1)) { bad = 1; break; }
+			if (c != 'f' && strlen(argv[i] + 1) > 12) { bad = 1; break; }
 			if (c == 'f' && argv[i][1] == 0) { g_prog[t][k].kind = 'f'; g_prog[t][k].n = 0; k++; }
 			else if ((c == 'a' || c == 'A') && argv[i][1]) {
 				unsigned long long v = vh_ull(argv[i] + 1);
@@ -237,7 +245,8 @@ static void vh_op(int argc, char **argv)
 	if (!strcmp(argv[0], "sched") && argc >= 2) {
 		if (!strcmp(argv[1], "random") && argc == 3) { g_pol = 0; g_seed = vh_ull(argv[2]); }
 		else if (!strcmp(argv[1], "pct") && argc == 4) { g_pol = 1; g_seed = vh_ull(argv[2]); g_depth = atoi(argv[3]); }
-		else if (!strcmp(argv[1], "replay")) { g_pol = 2; g_replay[0] = 0; size_t o = 0;
+		else if (!strcmp(argv[1], "replay") || !strcmp(argv[1], "prefix")) {
+			g_pol = !strcmp(argv[1], "prefix") ? 3 : 2; g_replay[0] = 0; size_t o = 0;
 			for (int i = 2; i < argc; i++) o += snprintf(g_replay + o, sizeof g_replay - o, "%s ", argv[i]); }
 		else { printf("bad-op\n"); return; }
 		printf("ok\n");
@@ -247,6 +256,7 @@ static void vh_op(int argc, char **argv)
 		if (!setup()) { printf("open-failed\n"); return; }
 		if (g_pol == 0) vs_policy_random(g_seed);
 		else if (g_pol == 1) vs_policy_pct(g_seed, g_depth);
+		else if (g_pol == 3) { vs_policy_prefix(g_replay); vs_trace_enabled(1); }
 		else vs_policy_replay(g_replay);
 		vs_set_max_steps(g_maxsteps);
 		if (g_kill_tid >= 0) vs_kill_after(g_kill_tid, g_kill_k);
@@ -254,10 +264,10 @@ static void vh_op(int argc, char **argv)
 		vs_print(stdout);
 		printf("geometry n_cacheline=%u n_bytes=%u total_bytes=%u\n", g_ncl, g_rb->n_bytes, g_rb->total_bytes);
 		printf("outcome committed=%d fetched=%d consumed=%d none=%d alloc_fail=%d fifo_viol=%d overlap_viol=%d "
-			   "bounds_viol=%d corrupt=%d canary=%s W=%u R=%u CR=%u\n",
+			   "bounds_viol=%d corrupt=%d wedge=%d canary=%s W=%d R=%d CR=%d\n",
 			   g_committed, g_fetched, g_consumed, g_none, g_fails, g_fifo_viol, g_overlap_viol,
-			   g_bounds_viol, g_corrupt, canary_ok() ? "ok" : "SMASHED",
-			   g_rb->write_cursor, g_rb->read_cursor, g_rb->cached_remain);
+			   g_bounds_viol, g_corrupt, g_wedge, canary_ok() ? "ok" : "SMASHED",
+			   (int)g_rb->write_cursor, (int)g_rb->read_cursor, (int)g_rb->cached_remain);
 		return;
 	}
 	printf("bad-op\n");
